@@ -1988,3 +1988,63 @@ _GRID_CHECKS = {"direct_exact": _direct_check, "importance_exact": _is_check, "e
 def _grid_check(case):
     info = _GRID_CHECKS[case["sub"]](case["case"])
     return Info(nontrivial=info.nontrivial, classes=[case["sub"] + ":" + c for c in info.classes])
+
+
+# ------------------------------------------------------------------ relaxed categorical with masked (-inf logit) categories
+
+
+@st.composite
+def _masked_cat_case(draw, tier):
+    V = draw(st.integers(2, 5))
+    B = draw(st.integers(1, 3))
+    rows = []
+    for _ in range(B):
+        r = [draw(st.integers(-8, 8)) / 4.0 for _ in range(V)]
+        k = draw(st.integers(1, V - 1))
+        for i in draw(st.permutations(list(range(V))))[:k]:
+            r[i] = "-inf"
+        rows.append(r)
+    return {"V": V, "B": B, "logits": rows, "dtype": draw(st.sampled_from(["float32", "float64"])),
+            "temp": draw(st.sampled_from([1.0, 0.5, 2.0]))}
+
+
+@subcheck("C19", "gumbel_masked_categories", lambda tier: _masked_cat_case(tier), 300, 5000,
+          doc="GumbelOneHotCategorical built from logits with -inf (masked) categories: thresholded log-probability of every one-hot "
+              "value == log-softmax of the logits (-inf exactly for the masked ones), probabilities over the one-hot support sum to one, "
+              "no NaN; samples never select a masked category",
+          required_classes=["two_or_more_live_categories"])
+def _masked_cat_check(case):
+    import torch
+    from pydrobert.torch.distributions import GumbelOneHotCategorical
+
+    dt = getattr(torch, case["dtype"])
+    V, B = case["V"], case["B"]
+    rows = [[float("-inf") if x == "-inf" else float(x) for x in r] for r in case["logits"]]
+    logits = torch.tensor(rows, dtype=dt)
+    dist = GumbelOneHotCategorical(logits=logits)
+    eye = torch.eye(V, dtype=dt)
+    tot = [0.0] * B
+    for v in range(V):
+        b = eye[v].expand(B, V)
+        got = dist.tlog_prob(b)
+        require(list(got.shape) == [B], "tlog_prob shape", list(got.shape), [B])
+        for n in range(B):
+            live = [x for x in rows[n] if x != float("-inf")]
+            m = max(live)
+            lse = m + math.log(sum(math.exp(x - m) for x in live))
+            exp = rows[n][v] - lse if rows[n][v] != float("-inf") else float("-inf")
+            g = float(got[n])
+            require(not math.isnan(g), "tlog_prob is NaN for a distribution with a masked category", g, exp)
+            require((g == exp) if exp == float("-inf") else abs(g - exp) <= 1e-5 * (1 + abs(exp)),
+                    "tlog_prob(one-hot %d) of batch element %d != log-softmax of the logits" % (v, n), g, exp)
+            tot[n] += math.exp(g)
+    for n in range(B):
+        require(abs(tot[n] - 1.0) <= 1e-5, "thresholded probabilities over the one-hot support do not sum to one", tot[n], 1.0)
+    torch.manual_seed(7)
+    z = dist.rsample([16])
+    hard = dist.threshold(z)
+    for n in range(B):
+        dead = [i for i, x in enumerate(rows[n]) if x == float("-inf")]
+        require(float(hard[:, n, dead].sum()) == 0.0, "a sample selects a masked (zero-probability) category", hard[:, n].tolist(), dead)
+    cl = ["two_or_more_live_categories"] if any(sum(1 for x in r if x != float("-inf")) >= 2 for r in rows) else []
+    return Info(nontrivial=bool(cl), classes=cl + [case["dtype"]])
